@@ -139,6 +139,11 @@ def run(ctx):
         rep.check(one_push and in_order, 'R-C09-2', 'R-C09-2/recoverer-position', 'the recoverer pushes mask component k once per d1[k], in order, and hands the vector to ExtendedMask::assign',
                   'mask vector is filled by %s' % [short(e, 80) for e in pushes], ctx.where(v, bb))
 
+    # ---- R-C09-3 (shared with R-C03-2): exactly one result per member, in input order
+    from . import C03
+    vb = ctx.fn('RangeProof::<P>::verify_batch', 'R-C09-3')
+    if vb is not None:
+        C03.r2(ctx, vb, v, RULE='R-C09-3')
     # ---- R-C09-3 who gets a mask
     rl = result_local(ctx, v)
     act = next((i for i in range(1, v.argc + 1) if 'VerifyAction' in v.local_ty(i)), None)
